@@ -210,3 +210,10 @@ func Opaque(s string) bool { return false }
 // Prune switches on or off the engine's "stop-at" cuts registered by the check (paths end
 // normally when a listed function is entered). Natively it does nothing.
 func Prune(on bool) {}
+
+// And, Or are non-short-circuit boolean connectives: under the engine they build one formula
+// instead of forking the path.
+func And(a, b bool) bool { return a && b }
+
+// Or is the non-forking disjunction.
+func Or(a, b bool) bool { return a || b }
